@@ -34,52 +34,56 @@ import (
 	"strings"
 )
 
-type target struct{ file, recv, name string }
+type target struct {
+	file, recv, name string
+	iter             bool // translate ONE ITERATION of the function's (single, conditional) top-level loop, locals as parameters
+}
 
 // the decision functions covered (file relative to the repository root, receiver type, function name)
 var targets = []target{
-	{"types/header.go", "Header", "ValidateBasic"},
-	{"types/data.go", "Signature", "ValidateBasic"},
-	{"types/signed_header.go", "SignedHeader", "ValidateBasic"},
-	{"types/data.go", "", "Validate"},
-	{"types/state.go", "State", "NextState"},
-	{"block/manager.go", "Manager", "execValidate"},
-	{"block/manager.go", "Manager", "retrieveBatch"},
-	{"block/manager.go", "Manager", "publishBlockInternal"},
-	{"block/sync.go", "Manager", "updateState"},
-	{"block/sync.go", "Manager", "trySyncNextBlock"},
-	{"block/manager.go", "Manager", "isUsingExpectedSingleSequencer"},
-	{"block/manager.go", "Manager", "isValidSignedData"},
-	{"block/manager.go", "Manager", "exponentialBackoff"},
-	{"block/aggregation.go", "", "getRemainingSleep"},
-	{"block/pending_base.go", "pendingBase", "numPending"},
-	{"block/pending_base.go", "pendingBase", "isEmpty"},
-	{"block/retriever.go", "Manager", "handlePotentialHeader"},
-	{"block/retriever.go", "Manager", "handlePotentialData"},
-	{"block/manager.go", "Manager", "IsDAIncluded"},
-	{"block/manager.go", "Manager", "SetRollkitHeightToDAHeight"},
-	{"block/da_includer.go", "Manager", "incrementDAIncludedHeight"},
-	{"sequencers/single/queue.go", "", "batchKey"},
-	{"sequencers/single/queue.go", "BatchQueue", "AddBatch"},
-	{"sequencers/single/queue.go", "BatchQueue", "Next"},
-	{"sequencers/single/sequencer.go", "Sequencer", "isValid"},
-	{"sequencers/single/sequencer.go", "Sequencer", "SubmitBatchTxs"},
-	{"sequencers/single/sequencer.go", "Sequencer", "GetNextBatch"},
-	{"pkg/store/store.go", "DefaultStore", "SetHeight"},
-	{"pkg/store/store.go", "DefaultStore", "Height"},
-	{"pkg/store/store.go", "DefaultStore", "SaveBlockData"},
-	{"pkg/store/store.go", "DefaultStore", "GetHeader"},
-	{"pkg/store/store.go", "DefaultStore", "UpdateState"},
-	{"pkg/store/store.go", "DefaultStore", "SetMetadata"},
-	{"pkg/store/store.go", "", "encodeHeight"},
-	{"pkg/store/store.go", "", "decodeHeight"},
-	{"block/manager.go", "", "getInitialState"},
-	{"block/manager.go", "Manager", "LoadCache"},
-	{"block/manager.go", "Manager", "SaveCache"},
-	{"pkg/cache/cache.go", "", "saveMapGob"},
-	{"block/pending_base.go", "pendingBase", "setLastSubmittedHeight"},
-	{"types/da.go", "", "SubmitWithHelpers"},
-	{"types/da.go", "", "RetrieveWithHelpers"},
+	{"types/header.go", "Header", "ValidateBasic", false},
+	{"types/data.go", "Signature", "ValidateBasic", false},
+	{"types/signed_header.go", "SignedHeader", "ValidateBasic", false},
+	{"types/data.go", "", "Validate", false},
+	{"types/state.go", "State", "NextState", false},
+	{"block/manager.go", "Manager", "execValidate", false},
+	{"block/manager.go", "Manager", "retrieveBatch", false},
+	{"block/manager.go", "Manager", "publishBlockInternal", false},
+	{"block/sync.go", "Manager", "updateState", false},
+	{"block/sync.go", "Manager", "trySyncNextBlock", false},
+	{"block/manager.go", "Manager", "isUsingExpectedSingleSequencer", false},
+	{"block/manager.go", "Manager", "isValidSignedData", false},
+	{"block/manager.go", "Manager", "exponentialBackoff", false},
+	{"block/aggregation.go", "", "getRemainingSleep", false},
+	{"block/pending_base.go", "pendingBase", "numPending", false},
+	{"block/pending_base.go", "pendingBase", "isEmpty", false},
+	{"block/retriever.go", "Manager", "handlePotentialHeader", false},
+	{"block/retriever.go", "Manager", "handlePotentialData", false},
+	{"block/manager.go", "Manager", "IsDAIncluded", false},
+	{"block/manager.go", "Manager", "SetRollkitHeightToDAHeight", false},
+	{"block/da_includer.go", "Manager", "incrementDAIncludedHeight", false},
+	{"sequencers/single/queue.go", "", "batchKey", false},
+	{"sequencers/single/queue.go", "BatchQueue", "AddBatch", false},
+	{"sequencers/single/queue.go", "BatchQueue", "Next", false},
+	{"sequencers/single/sequencer.go", "Sequencer", "isValid", false},
+	{"sequencers/single/sequencer.go", "Sequencer", "SubmitBatchTxs", false},
+	{"sequencers/single/sequencer.go", "Sequencer", "GetNextBatch", false},
+	{"pkg/store/store.go", "DefaultStore", "SetHeight", false},
+	{"pkg/store/store.go", "DefaultStore", "Height", false},
+	{"pkg/store/store.go", "DefaultStore", "SaveBlockData", false},
+	{"pkg/store/store.go", "DefaultStore", "GetHeader", false},
+	{"pkg/store/store.go", "DefaultStore", "UpdateState", false},
+	{"pkg/store/store.go", "DefaultStore", "SetMetadata", false},
+	{"pkg/store/store.go", "", "encodeHeight", false},
+	{"pkg/store/store.go", "", "decodeHeight", false},
+	{"block/manager.go", "", "getInitialState", false},
+	{"block/manager.go", "Manager", "LoadCache", false},
+	{"block/manager.go", "Manager", "SaveCache", false},
+	{"pkg/cache/cache.go", "", "saveMapGob", false},
+	{"block/pending_base.go", "pendingBase", "setLastSubmittedHeight", false},
+	{file: "block/submitter.go", name: "submitToDA", iter: true},
+	{"types/da.go", "", "SubmitWithHelpers", false},
+	{"types/da.go", "", "RetrieveWithHelpers", false},
 }
 
 var fset = token.NewFileSet()
@@ -209,6 +213,10 @@ func (t *tr) expr(e ast.Expr) string {
 			return "(ENot " + t.expr(x.X) + ")"
 		case token.AND:
 			return "(EAddr " + t.expr(x.X) + ")"
+		case token.SUB:
+			if bl, ok := x.X.(*ast.BasicLit); ok && bl.Kind == token.INT {
+				return "(EInt (-" + bl.Value + "))"
+			}
 		}
 		return "(EUnknown " + q("unary "+text(x)) + ")"
 	case *ast.BinaryExpr:
@@ -223,7 +231,13 @@ func (t *tr) expr(e ast.Expr) string {
 			return "(EId " + t.expr(x.X) + ")"
 		}
 		if x.Low != nil && x.High == nil && x.Max == nil {
-			return "(ESliceFrom " + t.expr(x.X) + " " + t.expr(x.Low) + ")"
+			if bl, ok := x.Low.(*ast.BasicLit); ok && bl.Value == "1" {
+				return "(ESliceFrom " + t.expr(x.X) + " " + t.expr(x.Low) + ")"
+			}
+			return "(ECall " + q("$slice_from") + " [" + t.expr(x.X) + "; " + t.expr(x.Low) + "])"
+		}
+		if x.Low == nil && x.High != nil && x.Max == nil {
+			return "(ECall " + q("$slice_to") + " [" + t.expr(x.X) + "; " + t.expr(x.High) + "])"
 		}
 		return "(EUnknown " + q("slice "+text(x)) + ")"
 	case *ast.SelectorExpr:
@@ -375,6 +389,12 @@ func (t *tr) stmt(s ast.Stmt) string {
 						}
 					}
 				}
+			}
+			if id, ok := c.Fun.(*ast.Ident); ok && len(c.Args) == 0 && strings.HasSuffix(strings.ToLower(id.Name), "cancel") {
+				return "(SSkip " + q("cancel") + ")" // the cancel function of a derived context
+			}
+			if se, ok := c.Fun.(*ast.SelectorExpr); ok && se.Sel.Name == "recordDAMetrics" {
+				return "(SSkip " + q("metrics") + ")"
 			}
 			// m.metrics.X.Set(...) / .Add(...) / .Observe(...): a gauge, no influence on any decision
 			if f := text(c.Fun); strings.Contains(f, ".metrics.") && (strings.HasSuffix(f, ".Set") || strings.HasSuffix(f, ".Add") || strings.HasSuffix(f, ".Observe")) {
@@ -547,16 +567,28 @@ func (t *tr) stmt(s ast.Stmt) string {
 		// switch [init;] [tag] { case a, b: ...; default: ... }  ->  if/else-if chain (no fallthrough)
 		var clauses []*ast.CaseClause
 		var def *ast.CaseClause
+		var lent []ast.Expr // labels of clauses that only fall through, waiting for the next clause
 		for _, c := range x.Body.List {
 			cc := c.(*ast.CaseClause)
+			if len(cc.Body) == 1 {
+				if b, ok := cc.Body[0].(*ast.BranchStmt); ok && b.Tok == token.FALLTHROUGH && cc.List != nil {
+					lent = append(lent, cc.List...)
+					continue
+				}
+			}
 			for _, st := range cc.Body {
 				if b, ok := st.(*ast.BranchStmt); ok && b.Tok == token.FALLTHROUGH {
 					return "(SUnknown " + q("switch with fallthrough") + ")"
 				}
 			}
 			if cc.List == nil {
-				def = cc
+				def = cc // labels lent to the default clause add nothing: default takes whatever no clause takes
+				lent = nil
 			} else {
+				if len(lent) > 0 {
+					cc = &ast.CaseClause{List: append(append([]ast.Expr{}, lent...), cc.List...), Body: cc.Body}
+					lent = nil
+				}
 				clauses = append(clauses, cc)
 			}
 		}
@@ -608,6 +640,21 @@ func (t *tr) stmt(s ast.Stmt) string {
 				if cc := c.(*ast.CommClause); cc.Comm == nil && len(cc.Body) == 0 {
 					def = cc
 				}
+			}
+			var timer ast.Expr
+			for _, c := range x.Body.List {
+				cc := c.(*ast.CommClause)
+				if es, ok := cc.Comm.(*ast.ExprStmt); ok && len(cc.Body) == 0 {
+					if u, ok := es.X.(*ast.UnaryExpr); ok && u.Op == token.ARROW {
+						if call, ok := u.X.(*ast.CallExpr); ok && text(call.Fun) == "time.After" && len(call.Args) == 1 {
+							timer = call.Args[0]
+						}
+					}
+				}
+			}
+			if done != nil && timer != nil {
+				// wait for the duration unless the context is cancelled first
+				return "(SIf [] (EBool true) [(SIf [] (ECall " + q("$ctxdone") + " []) " + t.block(&ast.BlockStmt{List: done.Body}) + " []); (SAssign [" + q("_") + "] (ECall " + q("time.After") + " [" + t.expr(timer) + "]))] [])"
 			}
 			if done != nil && def != nil {
 				// the non-blocking "has the context been cancelled" test
@@ -748,6 +795,91 @@ func main() {
 			for _, n := range p.Names {
 				params = append(params, q(n.Name))
 			}
+		}
+		if tg.iter {
+			// ONE ITERATION of the function's top-level conditional loop `for cond { body }`: a function of the
+			// parameters and of the locals declared before the loop, `if !cond { return $break, locals }` ; body ;
+			// `return $continue, locals` (a `return` inside the body is the function's own return)
+			var loop *ast.ForStmt
+			var locals []string
+			seen := map[string]bool{}
+			addLocal := func(n string) {
+				if n != "_" && !seen[n] {
+					seen[n] = true
+					locals = append(locals, n)
+				}
+			}
+			for _, st := range fd.Body.List {
+				if fs, ok := st.(*ast.ForStmt); ok && fs.Cond != nil && fs.Init == nil && fs.Post == nil {
+					loop = fs
+					break
+				}
+				switch x := st.(type) {
+				case *ast.AssignStmt:
+					if x.Tok == token.DEFINE {
+						for _, l := range x.Lhs {
+							if id, ok := l.(*ast.Ident); ok {
+								addLocal(id.Name)
+							}
+						}
+					}
+				case *ast.DeclStmt:
+					if gd, ok := x.Decl.(*ast.GenDecl); ok && gd.Tok == token.VAR {
+						for _, sp := range gd.Specs {
+							if vs, ok := sp.(*ast.ValueSpec); ok {
+								for _, n := range vs.Names {
+									addLocal(n.Name)
+								}
+							}
+						}
+					}
+				}
+			}
+			iterIdent := ident + "_iter"
+			iterKey := key + "$iter"
+			if loop == nil {
+				fmt.Fprintf(&b, "Definition %s : gfun := {| f_recv := None; f_params := []; f_body := [SUnknown %s] |}.\n\n", iterIdent, q("no conditional top-level loop in "+key))
+				table = append(table, "("+q(iterKey)+", "+iterIdent+")")
+				continue
+			}
+			plain := true
+			ast.Inspect(loop.Body, func(n ast.Node) bool {
+				switch x := n.(type) {
+				case *ast.BranchStmt:
+					if x.Tok != token.FALLTHROUGH {
+						plain = false
+					}
+				case *ast.LabeledStmt:
+					plain = false
+				case *ast.FuncLit:
+					return false
+				}
+				return true
+			})
+			var lv []string
+			for _, n := range locals {
+				lv = append(lv, "(EVar "+q(n)+")")
+			}
+			t.nresults = 0 // no hoisting of `return f()` by result count: the body's returns are the function's
+			var out []string
+			out = append(out, "(SIf [] (ENot "+t.expr(loop.Cond)+") [(SReturn ("+"(EVar "+q("$break")+") :: "+list(lv)+"))] [])")
+			if plain {
+				for _, st := range loop.Body.List {
+					out = append(out, t.stmt(st))
+				}
+			} else {
+				out = append(out, "(SUnknown "+q("break / continue / label inside the loop")+")")
+			}
+			out = append(out, "(SReturn ((EVar "+q("$continue")+") :: "+list(lv)+"))")
+			var ps []string
+			ps = append(ps, params...)
+			for _, n := range locals {
+				ps = append(ps, q(n))
+			}
+			fmt.Fprintf(&b, "(* %s: one iteration of the loop of %s; the locals declared before the loop are parameters: %s *)\nDefinition %s : gfun := {| f_recv := %s; f_params := %s; f_body :=\n  %s |}.\n\n",
+				tg.file, key, strings.Join(locals, ", "), iterIdent, recv, list(ps), list(out))
+			table = append(table, "("+q(iterKey)+", "+iterIdent+")")
+			continue
 		}
 		t.nresults = 0
 		if fd.Type.Results != nil {
